@@ -5,6 +5,8 @@ package main
 import (
 	"bytes"
 	"fmt"
+	"net"
+	"net/http"
 	"os"
 	"path/filepath"
 	"regexp"
@@ -58,6 +60,8 @@ func raceCfg(dir string, port uint16) torrent.Config {
 	cfg.TrackerStopTimeout = 200 * time.Millisecond
 	cfg.MaxOpenFiles = 0
 	cfg.DNSResolveTimeout = time.Second
+	cfg.TrackerMinAnnounceInterval = 200 * time.Millisecond
+	cfg.BlocklistEnabledForTrackers = false
 	return cfg
 }
 
@@ -148,7 +152,18 @@ func raceOne(m map[string]string) string {
 	if err != nil {
 		return "error:create:" + err.Error()
 	}
-	tb, err := metainfo.NewBytes(info, nil, nil, "")
+	// an in-process HTTP tracker that answers at once with a few peer addresses and a one second interval: the
+	// announcers keep handing new addresses to the event loops while the API is hammered
+	var trk [][]string
+	if tln, err := net.Listen("tcp4", "127.0.0.1:0"); err == nil {
+		tsrv := &http.Server{Handler: http.HandlerFunc(func(rw http.ResponseWriter, req *http.Request) {
+			rw.Write([]byte("d8:intervali1e12:min intervali1e5:peers12:\x7f\x00\x00\x01\x00\x09\x7f\x00\x00\x02\x00\x09e")) // nolint
+		})}
+		go tsrv.Serve(tln) // nolint
+		defer tsrv.Close()
+		trk = [][]string{{"http://" + tln.Addr().String() + "/announce"}}
+	}
+	tb, err := metainfo.NewBytes(info, trk, nil, "")
 	if err != nil {
 		return "error:newbytes"
 	}
